@@ -42,3 +42,19 @@ var commonTrusted = []string{
 	"VTA call-graph soundness for this module (no reflection, unsafe or linkname: rule R9.1 checks the last two)",
 	"the checker itself (evidence of sensitivity: controls and fixtures; it is not verified)",
 }
+
+// ResetCaches drops per-program caches (used between control variants).
+func ResetCaches() {
+	rolesMu.Lock()
+	rolesCache = map[*core.Program]*Roles{}
+	rolesMu.Unlock()
+	core.ResetCaches()
+}
+
+// Forget drops the caches of one program.
+func Forget(p *core.Program) {
+	rolesMu.Lock()
+	delete(rolesCache, p)
+	rolesMu.Unlock()
+	core.Forget(p)
+}
